@@ -23,6 +23,18 @@ CHECKS = {
          "Runs omap.Map with four comparators against a sorted reference and, after every Set/Delete/Clear (through the map or a copy of it), compares Len/Get/GetOK/Keys/String and sweeps iterators from First, Last and Seek(k) for every k around the key range in both directions, re-seeks positioned iterators to every kind of target, and runs the documented delete-while-iterating idiom; histories drain below 1/8 of their peak. Held = no divergence on the listed executions.",
          "Trusts the sorted-slice reference; key spelling under a case-folding comparator is compared with the map's own comparator only.",
          "DESIGN.md §5 C04"),
+ "C05": ("reference-model monitor (held multiset, minimality under the current comparison) after every operation and over a final drain; every history run twice: as is and with a counterfactual hook that substitutes the correct parent index, to attribute violations to known finding F1; exhaustive small inputs for Sort",
+         "Executes tens of thousands of Add/Pop/Remove(i)/Set/Reorder/Clear/NewWithData histories across several heap levels, three comparison orders and many duplicate keys, checking after every operation that Front/Pop are minimal among held elements, Remove(i) returns what Peek(i) showed and contents are conserved, then drains. Real-run violations are reported as KNOWN-FINDING F1 only if they vanish when the one expression F1 names is corrected by the hook; the counterfactual runs excuse nothing. heapq.Sort: all inputs of length <= 7 over 4 values plus random. Held (with KNOWN-FINDING lines) = nothing beyond F1 on the listed executions.",
+         "Trusts the reference multiset and the counterfactual hook (one added line in pushUp). A defect that needs F1's wrong layout to manifest AND vanishes with the corrected parent would be mis-attributed to F1.",
+         "DESIGN.md §5 C05, §4"),
+ "C06": ("event-log monitor: update-callback arguments recorded into tag->position and checked against Peek after every operation; removals through reported positions; consumer-side invariant hook on the LRU store",
+         "With an update callback installed, after every operation of tens of thousands of histories (keys with many ties, removals by raw offset and by reported position, Set of every length 0..64, Reorder, drains) every held element that entered through Add or Set must sit at its last reported position, Add must return it, and Remove(reported position) must remove exactly that element; the cache's LRU index is cross-checked against its heap after every cache call. Held = no stale position on the listed executions.",
+         "Trusts the recorded callback log; elements placed by NewWithData are not tracked (statement covers Add/Set only).",
+         "DESIGN.md §5 C06"),
+ "C08": ("reference-model monitor (recency list) after every call, exact per-call eviction-callback sequences, accounting invariant hook under the cache lock; counterfactual attribution of residual F1",
+         "Runs sequential Put/Get/Has/Remove/Clear histories over unit and variable sizes (including zero-size and too-large values), limits 1..40 and Remove-then-access bursts against a reference LRU; after every call compares result, Len, Size, Has of every key, the callbacks fired by that call (evictions in exact LRU order) and the accounting hook. Residual F1 violations (>= 5 entries) are excused only via the counterfactual switch. Held = nothing beyond F1 on the listed executions.",
+         "Trusts the reference LRU and the hooks cache.VerifCheck / heapq.VerifFixParent.",
+         "DESIGN.md §5 C08, §4"),
  "C07": ("reference-model monitor (slice) after every operation; exhaustive short histories + scripted wrap/regrow scenarios + PRNG histories; internal-state reach counters via hook",
          "Runs the real queue.Queue against a slice reference and compares the full observable state (Len, IsEmpty, Front, Slice, Each, every Peek offset) after every single operation, over every history of bounded length for small preallocated sizes, scripted rotate-then-grow scenarios for every capacity 1..24 and head position, and tens of thousands of PRNG histories. Held = no divergence on the executions listed in the evidence file; nothing is proved beyond them.",
          "Trusts the slice reference model and the Go runtime. The VerifState hook feeds reach counters only.",
